@@ -726,6 +726,10 @@ class Exec(Interp):
             if not vals:
                 raise Infeasible()
             conc_vals[nm] = vals[self.choose(len(vals), "loop-concrete")]
+        for nm in sorted(k_ for k_ in spec.havoc_as if "." in k_):
+            # dotted entry: an attribute whose value at an arbitrary iteration is a different object (e.g. a matcher that
+            # the loop replaces); evaluated after the plain names so that both can share one fresh object
+            pass
         for nm in sorted(names):
             if nm in spec.havoc_as:
                 env[nm] = spec.havoc_as[nm](self)
@@ -777,6 +781,14 @@ class Exec(Interp):
                 o.havoc(self)
         for m in spec.modifies:
             self.havoc_lvalue(m, env, module)
+        for nm in sorted(k_ for k_ in spec.havoc_as if "." in k_):
+            base_src, attr = nm.rsplit(".", 1)
+            self.spec_depth += 1
+            try:
+                base = self.ev(ast.parse(base_src, mode="eval").body)
+            finally:
+                self.spec_depth -= 1
+            self.setattr(base, attr, spec.havoc_as[nm](self))
         # 3. assume the invariant at the loop head
         if auto_inv is not None:
             self.assume(auto_inv())        # a range index never goes below its start (holds by construction)
